@@ -45,7 +45,6 @@ Ltac cst_eq := apply B2SF_inj; rewrite B2SF_Prim2B; vm_compute; reflexivity.
 Lemma eq_enc_tpi : Prim2B pc_enc_tpi = c_enc_tpi. Proof. cst_eq. Qed.
 Lemma eq_dec_tpi : Prim2B pc_dec_tpi = c_dec_tpi. Proof. cst_eq. Qed.
 Lemma eq_1e9 : Prim2B pc_1e9 = c_1e9. Proof. cst_eq. Qed.
-Lemma eq_1e8 : Prim2B pc_1e8 = c_1e8. Proof. cst_eq. Qed.
 Lemma eq_half : Prim2B pc_half = c_half. Proof. cst_eq. Qed.
 
 Definition small (z : Z) : Prop := 0 <= z < 9223372036854775808.
@@ -74,9 +73,9 @@ Proof.
   { subst subp sub. rewrite eq_mul, eq_sub, eq_floor, eq_1e9, Efs. reflexivity. }
   rewrite eq_leb, eq_1e9, Esub.
   destruct (f64_ge sub c_1e9).
-  - rewrite !eq_trunc, !eq_div, eq_round, eq_mul, !eq_add, eq_sub, eq_1e8, eq_1e9, eq_half, Esub, Efs.
+  - rewrite !eq_trunc, eq_floor, !eq_add, eq_sub, eq_1e9, eq_half, Esub, Efs.
     rewrite (eq_of_Z 1) by (unfold small; lia). reflexivity.
-  - rewrite !eq_trunc, !eq_div, eq_round, eq_mul, !eq_add, eq_1e8, eq_half, Esub, Efs. reflexivity.
+  - rewrite !eq_trunc, eq_floor, !eq_add, eq_half, Esub, Efs. reflexivity.
 Qed.
 
 Corollary dec_offset_pf_eq ipd ticks : small ipd -> small ticks -> dec_offset_pf ipd ticks = dec_offset ipd ticks.
